@@ -281,6 +281,10 @@ def model_part(tier, rep, cov):
     cfgs = ["PyLongArith_q3"] if tier == "quick" else ["PyLongArith_t3", "PyLongArith_t4"]
     states = trans = ncells_all = 0
     declared = set()
+    # the strict_* runs (below) do not depend on the main run: started now, collected afterwards
+    strict = (("PyLongArith_strict_a", "PyFloatBinop/fb-rem-infdiv"), ("PyLongArith_strict_b", "PyNumberBinop/nb-xfloat-mul0"))
+    pool = concurrent.futures.ThreadPoolExecutor(max_workers=len(strict))
+    strict_runs = [pool.submit(core.tlc, "PyLongArith", cfg=cfgn, timeout=3000, workers=2) for cfgn, _ in strict]
     for cfgn in cfgs:
         t = core.tlc_or_die("PyLongArith", cfg=cfgn, timeout=3000)
         cfg = L.read_cfg(os.path.join(core.SPEC, cfgn + ".cfg"))
@@ -309,11 +313,12 @@ def model_part(tier, rep, cov):
             float_constants=sorted({r["c"] for r in t.printed if r["ck"] == "float"}),
             invariants=["Agree", "UndecidedIsGeneric", "NoUB", "TypeGuard", "BoolGuard", "ExactCompare"]))
     # the same model with one declared hazard removed: TLC must find that defect of the transcribed algorithm by itself
-    for cfgn, missing in (("PyLongArith_strict_a", "PyFloatBinop/fb-rem-infdiv"), ("PyLongArith_strict_b", "PyNumberBinop/nb-xfloat-mul0")):
-        ts = core.tlc("PyLongArith", cfg=cfgn, timeout=3000)
+    for (cfgn, missing), fut in zip(strict, strict_runs):
+        ts = fut.result()
         if ts.violation != "Agree":
             core.die("%s: expected a violation of Agree, got %r\n%s" % (cfgn, ts.violation, ts.out[-1500:]))
         cov["tlc"].append(dict(ts.summary(), config="%s: %s not declared -> invariant Agree violated, as expected" % (cfgn, missing)))
+    pool.shutdown()
     cov.update({"states": states, "distinct_states": states, "transitions": trans, "cells_checked_against_mirror": ncells_all,
                 "declared_model_hazards": sorted(declared)})
     return declared
